@@ -20,13 +20,14 @@ def cases_for(rng, n, per):
     for _ in range(n):
         g = gg.grammar()
         ic = rng.random() < 0.2
+        rg = rng.random() < 0.25              # use_regexp_group: keywords matched as regexes have no group
         sg = G.SentenceGen(rng, g)
         for _k in range(per):
             toks = sg.sentence()
             s = G.join(rng, toks, False, glue=0.45)      # keywords glued to what follows
             ids = []
             for kw in (True, False):
-                cases.append(dict(id=len(cases), g=g, cfg=D.default_cfg(autokwd=kw, icase=ic), s=G.codes(s)))
+                cases.append(dict(id=len(cases), g=g, cfg=D.default_cfg(autokwd=kw, icase=ic, regroup=rg), s=G.codes(s)))
                 ids.append(cases[-1]["id"])
             pairs.append(ids)
     return cases, pairs
